@@ -391,6 +391,14 @@ fn admission(out: &mut Vec<String>) {
         out.push(one::<[u32; 3]>(size));
         out.push(one::<[u8; 16]>(size));
         out.push(one::<[u8; 24]>(size));
+        // samples larger than a page: twice the stream size is a whole number of them, the stream size is not
+        out.push(one::<[u8; 8192]>(size));
+        out.push(one::<[u8; 24576]>(size));
+    }
+    for size in [20480usize, 24576, 40960] {
+        out.push(one::<[u8; 8192]>(size));
+        out.push(one::<[u8; 16384]>(size));
+        out.push(one::<[u8; 49152]>(size));
     }
 }
 
